@@ -208,6 +208,10 @@ class TableOps:
                     v = ev.value
                     eng.obl("SYM-4", "sub:in-place", ev.b)
                     self.sites["sub"].add(ev.b)
+                    # `*count -= n.min(*count)` followed by `if *count == 0 { remove }`: a saturating subtraction
+                    if v[0] == "bin" and v[1] in ("Sub", "SubUnchecked") and v[2] == old and v[3][0] == "call" and v[3][2] in ("core::cmp::Ord::min", "core::cmp::min") and len(v[3][3]) == 2 and old in v[3][3]:
+                        amt = v[3][3][1] if v[3][3][0] == old else v[3][3][0]
+                        return add(st, ("top", "sub", tb, kind, target, amt), ("zero_pending", tb, key if key[0] != "ref" else key[1], ev.b))
                     if v[0] == "bin" and v[1] in ("Sub", "SubUnchecked") and v[2] == old:
                         amt = v[3]
                         strictly = any(g[0] == "cmp" and ((g[1] == "Gt" and g[2] == old and g[3] == amt and g[4]) or (g[1] == "Lt" and g[2] == amt and g[3] == old and g[4])
@@ -856,7 +860,9 @@ class ApiSpec:
             if v[0] == "agg" and v[3] == "Ok":
                 if ("killed", b) not in flags:
                     eng.violate("API-1", "try_unwrap:ok-without-lowering", "Rc::try_unwrap returns Ok without taking the strong count to zero", ev.b, st)
-                if not any(f[0] == "api_hdrop" and f[1] == "Weak" and f[2] == b for f in flags):
+                # (the fake `Weak` of the std idiom, or the same spelled out: lower the weak count, free at zero)
+                spelled_out = ("decw", b) in flags and (("freed", b) in flags or ("wnz", b) in flags)
+                if not any(f[0] == "api_hdrop" and f[1] == "Weak" and f[2] == b for f in flags) and not spelled_out:
                     eng.violate("API-1", "try_unwrap:implicit-weak-kept", "Rc::try_unwrap returns Ok without releasing the implicit weak reference (the allocation leaks)", ev.b, st)
             elif v[0] == "agg" and v[3] == "Err":
                 if "O" in st.strong(b):
@@ -946,6 +952,8 @@ class ApiSpec:
             return add(st, ("api_inc",))
         if ev.kind == "alloc" and self.name in ("Weak::new", "Rc::as_ptr", "Rc::into_raw", "Weak::as_ptr", "Rc::ptr_eq", "Rc::get_mut", "Weak::upgrade", "Rc::downgrade"):
             eng.violate("API-1", "%s:allocates" % self.name, "%s allocates" % self.name, ev.b, st)
+        if ev.kind == "borrow" and ev.get("box") is not None and self.name in ("Weak::new", "Rc::as_ptr", "Weak::as_ptr", "Rc::ptr_eq", "Weak::upgrade", "Rc::downgrade"):
+            eng.violate("API-1", "%s:borrows-a-link-table" % self.name, "%s looks into a link table: a counter operation became bookkeeping work" % self.name, ev.b, st)
         return None
 
 
